@@ -29,6 +29,7 @@ ORACLE = r'''
 import math, sys, warnings
 warnings.simplefilter("ignore")
 import numpy as np
+import sympy
 import unyt
 from unyt import Unit, unyt_quantity, unyt_array
 from unyt.unit_systems import UnitSystem, unit_system_registry
@@ -58,8 +59,58 @@ def c10_em_pair(d1, d2):
 def c10_same_unit(a, b):
     """the same unit expression: same symbols to the same powers, same numeric coefficient
     (sympy distinguishes 10.0*ly from 10*ly; Unit.copy() re-parses and turns one into the other)"""
-    ca, ra = a.expr.as_coeff_Mul(); cb, rb = b.expr.as_coeff_Mul()
-    return ra == rb and math.isclose(float(ca), float(cb), rel_tol=1e-12) and a == b
+    ca, pa = c10_split(a.expr); cb, pb = c10_split(b.expr)
+    return pa == pb and math.isclose(ca, cb, rel_tol=1e-12) and a == b
+
+C10_BASE = [D.mass, D.length, D.time, D.temperature, D.angle, D.current_mks, D.luminous_intensity, D.logarithmic]
+
+def c10_declared(S):
+    """dimension -> expression for the base dimensions and the dimensions the system declares"""
+    out = {}
+    for name in S._dims:
+        k = getattr(D, name)
+        if k in S.units_map:
+            out[k] = S.units_map[k]
+    return out
+
+def c10_system_unit(S, dims, registry=None):
+    """THE unit of the system for `dims`: the declared one, else the product of the system's
+    base units (coefficients included) to the exponents of `dims`; None when a needed base unit is missing"""
+    dims = sympy.sympify(dims).expand()
+    dec = c10_declared(S)
+    if dims in dec:
+        return None if dec[dims] is None else Unit(dec[dims], registry=registry)
+    out = sympy.Integer(1)
+    for b, p in dims.as_powers_dict().items():
+        if b == 1:
+            continue
+        if b not in C10_BASE or S.units_map.get(b) is None:
+            return None
+        out = out * S.units_map[b] ** p
+    return Unit(out, registry=registry)
+
+def c10_split(expr):
+    """(numeric coefficient, {symbol: exponent}) — numeric factors such as 10**(1/3) folded into the coefficient"""
+    c, rest = sympy.sympify(expr).as_coeff_Mul()
+    c = float(c); pw = {}
+    for b, p in rest.as_powers_dict().items():
+        if b == 1:
+            continue
+        if b.is_number:
+            c *= float(b ** p)
+        else:
+            pw[b] = pw.get(b, 0) + p
+    return c, pw
+
+def c10_same_system_unit(a, b):
+    """same symbols to the same powers and the same coefficient up to rounding of the powers"""
+    ca, pa = c10_split(a.expr); cb, pb = c10_split(b.expr)
+    if pa != pb or not math.isclose(ca, cb, rel_tol=1e-9):
+        return False
+    va, vb = abs(a.base_value), abs(b.base_value)
+    if not all(math.isfinite(v) and 1e-250 < v < 1e250 for v in (va, vb)):
+        return True  # the scale left the double range (extreme Planck powers): the expressions decide
+    return math.isclose(a.base_value, b.base_value, rel_tol=1e-9)
 
 def c10_close(a, b, scale):
     a = np.asarray(a, dtype=float); b = np.asarray(b, dtype=float)
@@ -85,6 +136,14 @@ def c10_oracle(sysname, unit, x=2.5, registry=None):
     if not ra <= owned:
         fails.append("outside"); detail.append(f"result unit {r.units} has atoms {sorted(ra - owned)} outside the system")
         verdict = "outside"
+    # "expressed in S's base units or in units S declares": the result unit IS the system's unit for
+    # its dimension — coefficient included — so that the number is the count of that unit
+    try:
+        want = c10_system_unit(S, r.units.dimensions, u.registry)
+    except Exception:
+        want = None
+    if want is not None and "outside" not in fails and not c10_same_system_unit(r.units, want):
+        fails.append("offsystem"); detail.append(f"result unit {r.units} (scale {r.units.base_value!r}) is not the system's unit {want} (scale {want.base_value!r}) for {r.units.dimensions}")
     samedim = r.units.dimensions == u.dimensions
     if not (samedim or c10_em_pair(u.dimensions, r.units.dimensions)):
         fails.append("wrongdim"); detail.append(f"dimension {u.dimensions} became {r.units.dimensions}")
@@ -161,6 +220,19 @@ def um_wire(um):
         d = gen.dim_vec(k)
         items.append(f"{d}=none" if v is None else f"{d}={expr_to_wire(v)}")
     return "|".join(items)
+
+
+def clean_um(S):
+    """units_map without the memoised entries: base dimensions and declared dimensions only, so
+    that the model has to synthesise what the library may have memoised"""
+    import unyt.dimensions as D
+    keys = {getattr(D, n) for n in S._dims} | set(S.base_units)
+    return {k: v for k, v in S.units_map.items() if k in keys}
+
+
+def um_subset(a, b):
+    """every entry of a is an entry of b"""
+    return all(k in b and same_expr(a[k], b[k]) for k in a)
 
 
 def parse_expr_wire(s):
@@ -303,7 +375,7 @@ def run(tier, seed):
     def lib_inbase(sysname, u, x):
         """run in_base on the library, recording what the model needs to be compared"""
         S = unit_system_registry[sysname]
-        before = um_wire(S.units_map)
+        before = um_wire(clean_um(S))
         try:
             r = unyt_quantity(x, u).in_base(sysname)
         except Exception as e:
@@ -349,15 +421,17 @@ def run(tier, seed):
         if fails:
             is_em = any(k[1] == u.dimensions for k in em_conversions)
             what = f"{us}.in_base({sysname!r}): {detail}" + (f" [{setup.strip()}]" if setup else "")
-            closure = [f for f in fails if f in CLOSURE_KINDS]
+            # an EM-table unit that lands off the system's unit is the EM-route defect (same key as "outside")
+            ckinds = CLOSURE_KINDS | ({"offsystem"} if (u.is_atomic and is_em) else set())
+            closure = [f for f in fails if f in ckinds]
             if closure:
                 if u.is_atomic:
                     key = em_key(sysname if tag in ("builtin", "compound") else tag, sysname, u)
                 else:
                     key = f"{tag}|closure|compound|{'em' if is_em else 'plain'}"
-                chk.fail(key, what, rp(CLOSURE_KINDS, kinds=fails))
+                chk.fail(key, what, rp(ckinds, kinds=fails))
             for f in fails:
-                if f not in CLOSURE_KINDS:
+                if f not in ckinds:
                     chk.fail(f"{tag}|{f}|{atomic}|{'em' if is_em else 'plain'}", what, rp({f}, kinds=fails))
         add_inbase_case(tag, sysname, u, x, extra)
         return verdict
@@ -397,25 +471,38 @@ def run(tier, seed):
         x = rng.choice(xs)
         run_case("compound", sname, cs, u, x, sample=lambda v: {"system": sname, "unit": cs, "verdict": v} if len(chk.samples) < 8 else None)
 
-    # ------------------------------------------------------------------ 4. __getitem__ / synthesis / __setitem__ on every built-in system
+    # ------------------------------------------------------------------ 4. __getitem__ / synthesis on systems; audit of memoised entries
     getitem_lines, getitem_expect = [], []
     dimnames = [n for n in ex["dims"] if n not in ("dimensionless",)]
     base_syms = [D.mass, D.length, D.time, D.temperature, D.angle, D.current_mks, D.luminous_intensity, D.logarithmic]
-    nget = 12 if tier == "quick" else 80
-    for sname in builtin:
+    dnames8 = ["mass", "length", "time", "temperature", "angle", "current_mks", "luminous_intensity", "logarithmic"]
+
+    def dim_code(dv):
+        return "*".join(f"D.{n}**sympy.Rational({Fraction(q).numerator}, {Fraction(q).denominator})"
+                        for n, q in zip(dnames8, dv.split(",")) if Fraction(q) != 0) or "sympy.Integer(1)"
+
+    def setup_block(setup):
+        if not setup:
+            return ""
+        return "try:\n" + "".join("    " + l + "\n" for l in setup.strip().split("\n")) + "except Exception:\n    sys.exit(0)\n"
+
+    def getitem_cases(tag, sname, n, setup="", regcode="None"):
+        """unit_system[dim] for seeded dimensions: direct oracle (dimension, owned atoms, and the unit IS the
+        product of the base units to the exponents — coefficient included) + the model on the un-memoised map"""
         S = unit_system_registry[sname]
-        for j in range(nget):
+        reg = S.registry
+        for j in range(n):
             if rng.random() < 0.5:
                 dim = getattr(D, rng.choice(dimnames))
             else:
                 dim = sympy.Integer(1)
-                for b in rng.sample(base_syms, rng.randint(1, 4)):
-                    dim = dim * b ** sympy.Rational(*(lambda f: (f.numerator, f.denominator))(rng.choice(gen.EXPONENTS)))
+                for b_ in rng.sample(base_syms, rng.randint(1, 4)):
+                    dim = dim * b_ ** sympy.Rational(*(lambda f: (f.numerator, f.denominator))(rng.choice(gen.EXPONENTS)))
             try:
                 dv = gen.dim_vec(dim)
             except ValueError:
                 continue
-            before = um_wire(S.units_map)
+            before = um_wire(clean_um(S))
             try:
                 r = S[dim]
                 res = ("ok", r)
@@ -427,15 +514,46 @@ def run(tier, seed):
             chk.count("getitem:" + res[0])
             chk.case(("getitem", sname, dv))
             if res[0] == "ok":
-                # direct oracle: the synthesised unit has the requested dimension and only owned atoms
                 owned = ns["c10_owned"](S)
-                if r.dimensions != dim or not ns["c10_atoms"](r.expr) <= owned:
-                    names = ["mass", "length", "time", "temperature", "angle", "current_mks", "luminous_intensity", "logarithmic"]
-                    dcode = "*".join(f"D.{n}**sympy.Rational({Fraction(q).numerator}, {Fraction(q).denominator})"
-                                     for n, q in zip(names, dv.split(",")) if Fraction(q) != 0) or "sympy.Integer(1)"
-                    chk.fail(f"getitem|{sname}", f"unit_system[{dim}] returned {r} (dimension {r.dimensions})",
-                             {"python": ORACLE + f"\nimport sympy\nS = unit_system_registry[{sname!r}]\ndim = {dcode}\n"
-                              + "r = S[dim]\nassert r.dimensions == dim and c10_atoms(r.expr) <= c10_owned(S), r\n"})
+                want = ns["c10_system_unit"](S, dim, reg)
+                if r.dimensions != dim or not ns["c10_atoms"](r.expr) <= owned or (want is not None and not ns["c10_same_system_unit"](r, want)):
+                    chk.fail(f"getitem|{sname if tag == 'builtin' else tag}", f"unit_system[{dim}] returned {r} (dimension {r.dimensions}); the system's unit is {want} {('[' + setup.strip() + ']') if setup else ''}",
+                             {"python": ORACLE + f"\n" + setup_block(setup) + f"S = unit_system_registry[{sname!r}]\ndim = {dim_code(dv)}\n"
+                              + f"r = S[dim]\nwant = c10_system_unit(S, dim, {regcode})\n"
+                              + "assert r.dimensions == dim and c10_atoms(r.expr) <= c10_owned(S) and (want is None or c10_same_system_unit(r, want)), (r, want)\n"})
+
+    memo_lines, memo_expect = [], []
+
+    def memo_audit(tag, sname, setup="", regcode="None"):
+        """every entry `__getitem__` memoised so far is the system's unit for its key (direct oracle)
+        and what the model synthesises from the un-memoised map"""
+        S = unit_system_registry[sname]
+        keep = clean_um(S)
+        before = um_wire(keep)
+        for k, v in list(S.units_map.items()):
+            if k in keep or v is None:
+                continue
+            try:
+                dv = gen.dim_vec(k)
+                vw = parse_expr_wire(expr_to_wire(v))
+            except ValueError:
+                continue
+            chk.count("memo-audit")
+            try:
+                want = ns["c10_system_unit"](S, k, S.registry)
+                have = Unit(v, registry=S.registry)
+            except Exception:
+                continue
+            if want is not None and not ns["c10_same_system_unit"](have, want):
+                chk.fail(f"memo|{sname if tag == 'builtin' else tag}", f"units_map[{k}] holds {v}, the system's unit is {want} {('[' + setup.strip() + ']') if setup else ''}",
+                         {"python": ORACLE + "\n" + setup_block(setup) + f"S = unit_system_registry[{sname!r}]\ndim = {dim_code(dv)}\nS[dim]\n"
+                          + f"have = Unit(S.units_map[dim], registry=S.registry); want = c10_system_unit(S, dim, S.registry)\n"
+                          + "assert want is None or c10_same_system_unit(have, want), (have, want)\n"})
+            memo_lines.append(f"c10.getitem\t{before}\t{dv}")
+            memo_expect.append((sname, k, vw))
+
+    for sname in builtin:
+        getitem_cases("builtin", sname, 12 if tier == "quick" else 80)
 
     # ------------------------------------------------------------------ 5. user-defined systems
     bydim = {}
@@ -466,6 +584,8 @@ def run(tier, seed):
             dv = gen.dim_vec(dsym)
             cands = [s for s in bydim.get(dv, []) if s not in ("lat", "lon")]
             r_ = rng.random()
+            if i < 2 and j < 3:
+                r_ = 0.85  # the first two systems always carry coefficients on length, mass and time
             if j >= 3 and r_ < 0.45:
                 s = defaults[j]
                 args_code.append(repr(s)); args_val.append(s)
@@ -565,6 +685,8 @@ def run(tier, seed):
             x = rng.choice(xs)
             run_case("user", name, us, u, x, setup=setup,
                      sample=lambda v: {"setup": setup.strip(), "unit": us, "verdict": v} if len(chk.samples) < 11 and us == pool[0] else None)
+        getitem_cases("user", name, 6 if tier == "quick" else 20, setup=setup)
+        memo_audit("user", name, setup=setup)
 
     # ------------------------------------------------------------------ 6. code-unit registries (system bound to a registry)
     ncode = 3 if tier == "quick" else 12
@@ -600,6 +722,7 @@ def run(tier, seed):
             x = rng.choice(xs)
             run_case("code", name, us, u, x, setup=setup, regcode="reg", extra=extra,
                      sample=lambda v: {"setup": setup.strip(), "unit": us, "verdict": v} if us == "km" and i == 0 else None)
+        memo_audit("code", name, setup=setup, regcode="reg")
 
     # default system of a registry: in_base() == in_base('mks')
     for us in ("km", "erg/s", "statC", "degF"):
@@ -609,6 +732,9 @@ def run(tier, seed):
         if a.units.expr != b.units.expr or not core.close(float(a.v), float(b.v)):
             chk.fail("default-system", f"in_base() of {us} differs from in_base('mks')",
                      {"python": f"from unyt import unyt_quantity\nq = unyt_quantity(2.0, {us!r})\na, b = q.in_base(), q.in_base('mks')\nassert a.units.expr == b.units.expr and abs(float(a.v)-float(b.v)) <= 1e-12*abs(float(b.v))\n"})
+
+    for sname in builtin:
+        memo_audit("builtin", sname)
 
     # ------------------------------------------------------------------ 7. the model on the same inputs
     rep = ask(verdict_lines)
@@ -656,9 +782,10 @@ def run(tier, seed):
         if not (core.close(my, ly, 1e-11) or abs(my - ly) <= 1e-10 * (abs(lr.units.base_offset) + abs(u.base_offset) * abs(u.base_value / lr.units.base_value if lr.units.base_value else 1))):
             chk.disagree("c10.inbase", f"{where}: value differs: library {ly!r}, model {my!r}")
             continue
-        if not same_um(parse_um(r[7]), after):
-            ma = parse_um(r[7])
-            chk.disagree("c10.inbase", f"{where}: units_map after the call differs: keys only in model {sorted(set(ma) - set(after))[:3]}, only in library {sorted(set(after) - set(ma))[:3]}")
+        ma = parse_um(r[7])
+        if not um_subset(ma, after):
+            bad = [k for k in ma if k not in after or not same_expr(ma[k], after[k])]
+            chk.disagree("c10.inbase", f"{where}: units_map after the call: the model's entries {bad[:3]} are missing from or differ in the library's map (library {[after.get(k) for k in bad[:2]]}, model {[ma[k] for k in bad[:2]]})")
     rep = ask(variant_lines)
     for i, (tag, sname, ustr, x, res, u) in enumerate(variant_expect):
         if 2 * i + 1 >= len(rep) or rep[2 * i][0] == "nomodel":
@@ -697,8 +824,15 @@ def run(tier, seed):
             chk.disagree("c10.getitem", f"{sname}[{dim}]: library returned {res[1]}, model {r[:2]}")
             continue
         lc, lf = gen.expr_wire(res[1].expr)
-        if not same_expr(parse_expr_wire(r[1]), (core.b2f(lc), gen.parse_factors(lf))) or not same_um(parse_um(r[2]), after):
+        if not same_expr(parse_expr_wire(r[1]), (core.b2f(lc), gen.parse_factors(lf))) or not um_subset(parse_um(r[2]), after):
             chk.disagree("c10.getitem", f"{sname}[{dim}]: library {res[1]}, model {r[1]}")
+    rep = ask(memo_lines)
+    for r, (sname, k, vw) in zip(rep, memo_expect):
+        chk.count("model:memo-audit")
+        if r[0] == "nomodel":
+            break
+        if r[0] != "ok" or not same_expr(parse_expr_wire(r[1]), vw):
+            chk.disagree("c10.getitem", f"{sname}: memoised units_map[{k}] = {vw}, the model synthesises {r[1:2]}")
     rep = ask(init_lines)
     for r, (setup, res) in zip(rep, init_expect):
         chk.count("model:init")
